@@ -153,6 +153,13 @@ def run(ctx, prop):
             "wf_and_s2": sum(1 for k in st if set(k.get("wf", "0")) == {"1"} and len(k.get("structured", "")) >= 2 and k["structured"][1] == "1"),
             "region_walk_error_free_and_equal_to_name_walk": sum(1 for k in st if k.get("simName") == "1" and k.get("simRegion") == "1"),
         }
+    if prop in ("C01", "C14"):
+        # step certificates: every real extract_region / one-successor insert_block call of the pipeline,
+        # whole hierarchy before and after, judged by wrappedB / splicedB (sound for the hypotheses of
+        # wrapped_paths / spliced_paths). A rejected step is not a violation (the relation is sufficient,
+        # not necessary); the stage outputs above decide the property.
+        from harness import steps
+        cov["step_certificates"] = steps.coverage(prop, ctx["tier"], [c["succ"] for c in cases])
     return {"level": LEVEL, "coverage": cov, "violations": violations, "assumptions": ASSUMPTIONS}
 
 
